@@ -42,6 +42,7 @@ FIELDS = {
                       "self.out_degree": ("self_out_degree", "dictZ"), "self.is_full": ("self_is_full", "bool"), "self.is_full_checked": ("self_is_full_checked", "bool"),
                       "self.graph.vertices": ("self_graph_vertices", "set"), "self.graph.vertex_total_valence": ("self_graph_vertex_total_valence", "dictZ")},
 }
+FIELDS["DharAlgorithm"] = {"self.graph.graph": ("self_graph_graph", "dictD")}
 FIELDS["CFLaplacian"] = {"self.graph.vertices": ("self_graph_vertices", "set"), "self.graph.graph": ("self_graph_graph", "dictD"),
                          "self.graph.vertex_total_valence": ("self_graph_vertex_total_valence", "dictZ"), "self.laplacian": ("self_laplacian", "dictD")}
 FIELDS["CFConfigMoves"] = {"self.q_vertex": ("self_q_vertex", "key"), "self.v_tilde_vertices": ("self_v_tilde_vertices", "set"),
@@ -65,6 +66,7 @@ TARGETS = [
     ("chipfiring/CFOrientation.py", "CFOrientation", "get_in_degree"), ("chipfiring/CFOrientation.py", "CFOrientation", "get_out_degree"),
     ("chipfiring/CFOrientation.py", "CFOrientation", "get_orientation"), ("chipfiring/CFOrientation.py", "CFOrientation", "is_source"), ("chipfiring/CFOrientation.py", "CFOrientation", "is_sink"),
     ("chipfiring/CFOrientation.py", "CFOrientation", "divisor"), ("chipfiring/CFOrientation.py", "CFOrientation", "canonical_divisor"),
+    ("chipfiring/CFDhar.py", "DharAlgorithm", "outdegree_S"),
     ("chipfiring/CFLaplacian.py", "CFLaplacian", "_construct_matrix"), ("chipfiring/CFLaplacian.py", "CFLaplacian", "get_matrix_entry"),
     ("chipfiring/CFConfig.py", "CFConfigMoves", "__init__"), ("chipfiring/CFConfig.py", "CFConfigMoves", "get_degree_at"), ("chipfiring/CFConfig.py", "CFConfigMoves", "is_non_negative"), ("chipfiring/CFConfig.py", "CFConfigMoves", "get_degree_sum"), ("chipfiring/CFConfig.py", "CFConfigMoves", "get_q_underlying_degree"),
     ("chipfiring/CFConfig.py", "CFConfigMoves", "_is_comparable_to"), ("chipfiring/CFConfig.py", "CFConfigMoves", "__eq__"), ("chipfiring/CFConfig.py", "CFConfigMoves", "__ge__"), ("chipfiring/CFConfig.py", "CFConfigMoves", "__le__"),
@@ -86,7 +88,7 @@ def ann_type(a):
     if s in ("'CFConfig'", '"CFConfig"'): return "cfgparam"
     if s in ("Optional[typing.Dict[str, int]]", "typing.Optional[typing.Dict[str, int]]", "Optional[Dict[str, int]]"): return "optdict"
     if s in ("'CFDivisor'", '"CFDivisor"', "CFDivisor"): return "divparam"
-    if s in ("Set[str]", "typing.Set[str]", "typing.Set[typing.str]"): return "set"
+    if s in ("Set[str]", "typing.Set[str]", "typing.Set[typing.str]", "Set[Vertex]", "typing.Set[Vertex]"): return "set"
     raise Unsupported("annotation " + s)
 DONE = {}      # (cls, name) -> Fn, in translation order
 CFGPARAM = [("q_vertex", "key"), ("graph_vertices", "set"), ("graph_graph", "dictD"), ("v_tilde_vertices", "set"), ("divisor_degrees", "dictZ")]
@@ -172,6 +174,18 @@ class Fn:
             call = "CFGraph_%s %s" % (e.func.attr, " ".join(args))
             if not callee.can_raise: return "(%s)" % call, callee.rty
             t = self.fresh(); self.pending.append((t, "CALL_ " + call)); self.can_raise = True; return t, callee.rty
+        if isinstance(e, ast.Call) and isinstance(e.func, ast.Name) and e.func.id == "sum" and len(e.args) == 1 and not e.keywords and isinstance(e.args[0], ast.GeneratorExp) \
+                and len(e.args[0].generators) == 1 and isinstance(e.args[0].generators[0].target, ast.Name) and len(e.args[0].generators[0].ifs) <= 1:
+            # sum(E for x in <dict> if C): the keys in insertion order; dictionary reads that do not mention x are hoisted out of the sum
+            g_ = e.args[0].generators[0]; x_ = g_.target.id
+            if x_ in self.env: bad(e, "generator variable shadows a name")
+            d_, td_ = self.expr(g_.iter)
+            if td_ not in ("dictZ", "dictD"): bad(e, "sum over " + td_)
+            n0 = len(self.pending); self.env[x_] = "key"
+            c_ = self.expr(g_.ifs[0]) if g_.ifs else ("true", "bool"); el_, te_ = self.expr(e.args[0].elt); del self.env[x_]
+            import re as _re
+            if c_[1] != "bool" or te_ != "Z" or any(_re.search(r"\b%s\b" % _re.escape(x_), look) for _, look in self.pending[n0:]): bad(e, "generator expression")
+            return "(fold_left (fun a_ %s => if %s then (a_ + %s) else a_) (d_keys %s) 0)" % (x_, c_[0], el_, d_), "Z"
         if isinstance(e, ast.List) and not e.elts: return "(@nil (nat * Z))", "pairs"        # (only ever appended to with (name, int) pairs: checked at the append)
         if isinstance(e, ast.Call) and isinstance(e.func, ast.Name) and e.func.id == "isinstance" and len(e.args) == 2 and isinstance(e.args[0], ast.Name) \
                 and self.env.get(e.args[0].id) == "Z" and ast.unparse(e.args[1]) == "int": return "true", "bool"      # a parameter annotated int (assumption of the tie: callers respect the annotation)
@@ -746,7 +760,7 @@ def read_enums():
 def main():
     failed = []
     read_enums()
-    for cls in ("CFDivisor", "CFGraph", "CFiringScript", "CFConfig", "CFOrientation", "CFConfigMoves", "CFLaplacian"):
+    for cls in ("CFDivisor", "CFGraph", "CFiringScript", "CFConfig", "CFOrientation", "CFConfigMoves", "CFLaplacian", "DharAlgorithm"):
         out_path = os.path.join(os.path.dirname(OUT), "TranslatedImp%s.v" % cls)
         try:
             out = ["(* GENERATED on every run by tools/translate_imp.py from the current source in %s. Do not edit. *)" % REPO,
